@@ -10,6 +10,9 @@ print(sh("./setup.sh", cwd=here, env=dict(env, PYTHONPATH=repo + "/src")).stdout
 props = ["C%02d" % i for i in range(1, 20)]
 seeds = sorted(d for d in os.listdir(os.path.join(here, "seeded")) if os.path.exists(os.path.join(here, "seeded", d, "patch.diff")))
 only = sys.argv[1:] or seeds
+if len(only) == 1 and "/" in only[0]:            # "k/n": the k-th of n slices of the seed list
+    k, n = map(int, only[0].split("/")); only = seeds[k::n]
+out_name = "crossmatrix-%s.json" % sys.argv[1].replace("/", "of") if len(sys.argv) == 2 and "/" in sys.argv[1] else "crossmatrix.json"
 res = {}
 base = {}
 for p in props:
@@ -22,11 +25,14 @@ for s in seeds:
     if a.returncode: print(s, "patch does not apply", a.stderr[:200]); continue
     row = {}
     t0 = time.time()
-    for p in props:
+    def one(p):
         r = sh("timeout 1500 ./check %s --tier quick" % p, cwd=here, env=env)
         v = [l for l in r.stdout.split("\n") if l.startswith("VIOLATION")]
-        row[p] = ("no-failing-input" if v and "no-failing-input-found" in v[0] else "VIOLATION") if r.returncode == 1 else ("held" if r.returncode == 0 else "error %d" % r.returncode)
+        return p, ("no-failing-input" if v and "no-failing-input-found" in v[0] else "VIOLATION") if r.returncode == 1 else ("held" if r.returncode == 0 else "error %d" % r.returncode)
+    from concurrent.futures import ThreadPoolExecutor
+    with ThreadPoolExecutor(4) as ex:
+        for p, v in ex.map(one, props): row[p] = v
     sh("git -C %s checkout -- ." % repo)
     res[s] = row
     print(s, "%.0fs" % (time.time() - t0), {p: v for p, v in row.items() if v != "held"}, flush=True)
-    json.dump(res, open(os.path.join(here, "crossmatrix.json"), "w"), indent=1)
+    json.dump(res, open(os.path.join(here, out_name), "w"), indent=1)
